@@ -104,6 +104,18 @@ Definition wpend (w : wshape) : list ev := match w with W3 _ ph r => ph_pend ph 
 Definition mpend (ms : list ev) (m : mshape) : list ev :=
   match m with M0 | M1 | M2 | M3 | M4 | M5 => ms | MT ph r => ph_pend ph r | _ => [] end.
 
+(* ---- identities: every event identity of the scenario is, at any time, either begun or still pending somewhere *)
+Fixpoint cnt (x : N) (l : list N) : nat :=
+  match l with [] => 0 | y :: r => (if N.eqb x y then 1 else 0) + cnt x r end.
+Definition ecnt (x : N) (l : list ev) : nat := cnt x (evs_ids l).
+Definition ppend (p : tphase * list ev) : list ev := ph_pend (fst p) (snd p).
+Definition sumf {A} (f : A -> nat) (l : list A) : nat := fold_right (fun a n => f a + n) 0 l.
+
+Definition tokens (x : N) (c : config) (a : astate) : nat :=
+  cnt x (map ev_id (a_done a)) + cnt x (map ev_id (wbegun (a_w a)))
+  + ecnt x (mpend (mscript c) (a_m a)) + ecnt x (wpend (a_w a)) + ecnt x (wheld (a_w a))
+  + sumf (fun p => ecnt x (ppend p)) (a_p a) + ecnt x (queue (a_sh a)).
+
 Record AInv (c : config) (a : astate) : Prop := mkAInv {
   i_flags : flags (a_sh a) = flags_of (a_m a);
   i_started : started (a_sh a) = Nat.leb 5 (mnum (a_m a));
@@ -123,10 +135,39 @@ Record AInv (c : config) (a : astate) : Prop := mkAInv {
   i_ordw : puts_by 1 (puts (a_sh a)) ++ wpend (a_w a) = flat_map ev_children (a_done a ++ wbegun (a_w a));
   i_ordp : forall i p, nth_error (a_p a) i = Some p ->
            puts_by (2 + i) (puts (a_sh a)) ++ ph_pend (fst p) (snd p) = nth i (pscripts c) [];
-  i_np : length (a_p a) = length (pscripts c)
+  i_np : length (a_p a) = length (pscripts c);
+  i_tok : forall x, tokens x c a = cnt x (all_ids c)
 }.
 
 (* ---------------------------------------------------------------- small facts *)
+Lemma cnt_app : forall x a b, cnt x (a ++ b) = cnt x a + cnt x b.
+Proof. induction a; cbn; intros; auto. rewrite IHa. lia. Qed.
+
+Lemma evs_ids_app : forall a b, evs_ids (a ++ b) = evs_ids a ++ evs_ids b.
+Proof. intros. unfold evs_ids. apply flat_map_app. Qed.
+
+Lemma ev_ids_unfold : forall e, ev_ids e = ev_id e :: evs_ids (ev_children e).
+Proof.
+  destruct e as [i c]. cbn [ev_ids ev_id ev_children]. f_equal.
+Qed.
+
+Lemma ecnt_nil : forall x, ecnt x [] = 0.
+Proof. reflexivity. Qed.
+Lemma ecnt_app : forall x a b, ecnt x (a ++ b) = ecnt x a + ecnt x b.
+Proof. intros. unfold ecnt. rewrite evs_ids_app, cnt_app. reflexivity. Qed.
+Lemma ecnt_cons : forall x e l, ecnt x (e :: l) = cnt x [ev_id e] + ecnt x (ev_children e) + ecnt x l.
+Proof.
+  intros. change (e :: l) with ([e] ++ l). rewrite ecnt_app. f_equal. unfold ecnt. unfold evs_ids at 1. cbn [flat_map].
+  rewrite app_nil_r, ev_ids_unfold. cbn [cnt]. lia.
+Qed.
+
+Lemma sumf_upd : forall {A} (f : A -> nat) i x l p, nth_error l i = Some p -> sumf f (upd i x l) + f p = sumf f l + f x.
+Proof.
+  intros A f i x l. unfold sumf. revert i. induction l; destruct i; cbn; intros; try discriminate.
+  - inversion H; subst. lia.
+  - specialize (IHl _ _ H). lia.
+Qed.
+
 Lemma drop_try_calls : forall r tail, drop_try tail = tail -> drop_try (map KCall r ++ tail) = map KCall r ++ tail.
 Proof. intros [|e r] tail H; cbn; auto. Qed.
 
